@@ -85,10 +85,10 @@ def generate(ctx, fx, fxpath):
     plain = [c for c in allc if not fx[c - 1].get("certRound")]
     certc = [c for c in allc if fx[c - 1].get("certRound")]
     # ---- M: exhaustive design-level runs.  Run A: all forging steps -- quick: configuration 1 to depth 3, the others to depth 2;
-    # thorough: five plain configurations (degenerate-A, natural-N, large-L, natural-T, epoch-E2) to depth 3, the others to depth 2.  Run B: the certificate-round
+    # thorough: four plain configurations (degenerate-A, natural-N, natural-T, epoch-E2) to depth 3, the others to depth 2.  Run B: the certificate-round
     # configurations to depth 3 with the forging steps on the certificate only.
     names = {fx[c - 1]["name"]: c for c in allc}
-    tdeep = [names[n_] for n_ in ("degenerate-A", "natural-N", "large-L", "natural-T", "epoch-E2") if n_ in names]
+    tdeep = [names[n_] for n_ in ("degenerate-A", "natural-N", "natural-T", "epoch-E2") if n_ in names]
     runs = [("M_design", cs(allc), cs([1] if quick else tdeep), "all", not quick)]
     if not quick:
         runs.append(("M_certificate", cs(certc), cs(certc), "cert", False))
@@ -169,7 +169,7 @@ def generate(ctx, fx, fxpath):
         groups[k] = out
         if k == 2:
             ctx.cov["tempting_strata"] = len(names)
-    caps = {0: 10 ** 9, 1: 200, 2: 300, 3: 60} if quick else {0: 10 ** 9, 1: 3000, 2: 5000, 3: 2000}
+    caps = {0: 10 ** 9, 1: 200, 2: 300, 3: 60} if quick else {0: 10 ** 9, 1: 2000, 2: 3000, 3: 1000}
     sel = []
     for k in sorted(groups):
         sel += groups[k][:caps[k]]
